@@ -109,3 +109,109 @@ func c08Settle(c *core.Ctx) {
 		c.Count(fmt.Sprintf("c08-settle %d %s maxkb=%d many=%d", idx, mode, maxkb, many), true)
 	}
 }
+
+// C08 leg "a big delivery among small mail" (memory store with a byte limit, implementation only).  "Stored bytes never exceed the limit and
+// messages are evicted strictly oldest-first, only until the limit is met again" — also when ONE delivery has to displace hundreds of older
+// messages (a large message arriving in a store full of small ones), and also for the deliveries right after it.
+//   size-bound                       after every call the live bytes do not exceed the limit
+//   evicts-oldest-first              what is left is a SUFFIX of the arrival order
+//   evicts-only-what-is-necessary    the oldest survivor would not have fitted as well
+func c08BigAmongSmall(c *core.Ctx) {
+	r := c.SubRng("c08-big")
+	n := c.Scale(12, 200)
+	for idx := 0; idx < n; idx++ {
+		maxkb := 8 + r.Intn(56)
+		limit := maxkb * 1024
+		st, err := mem.New(config.Storage{Type: "memory", Params: map[string]string{"maxkb": strconv.Itoa(maxkb)}}, extension.NewHost())
+		if err != nil {
+			c.Fail("store-construction", []string{"mem maxkb=" + strconv.Itoa(maxkb)}, err.Error(), "")
+			return
+		}
+		be := &backend{kind: "mem", st: st}
+		small := 40 + r.Intn(60)
+		trace := []string{fmt.Sprintf("# memory store, maxkb=%d (%d bytes); messages of %d bytes until the store is full, then one large delivery, then small ones again", maxkb, limit, small)}
+		mk := func(k int) []byte {
+			b := make([]byte, k)
+			for i := range b {
+				b[i] = byte('a' + i%26)
+			}
+			return b
+		}
+		type ent struct {
+			box, id string
+			size    int
+		}
+		var order []ent // arrival order of everything delivered
+		deliver := func(box string, size int) bool {
+			id, err := addRaw(be, storeOp{kind: "add", box: box, body: mk(size), from: "a@src.net", subj: "s", date: 1700000000})
+			if err != nil {
+				c.Fail("store-op-works", trace, fmt.Sprintf("AddMessage(%s, %d bytes): %v", box, size, err), "")
+				return false
+			}
+			order = append(order, ent{box, id, size})
+			// what is live now
+			live := map[string]int{}
+			total := 0
+			st.VisitMailboxes(func(ms []storage.Message) bool {
+				for _, m := range ms {
+					live[m.Mailbox()+"\x00"+m.ID()] = int(m.Size())
+					total += int(m.Size())
+				}
+				return true
+			})
+			c.Compared(3)
+			if total > limit {
+				c.Fail("size-bound", trace, fmt.Sprintf("after AddMessage(%s, %d bytes) returned the store holds %d bytes in %d messages under a limit of %d", box, size, total, len(live), limit), "")
+				return false
+			}
+			// survivors are a suffix of the arrival order
+			first := -1
+			for i, e := range order {
+				_, ok := live[e.box+"\x00"+e.id]
+				if ok && first < 0 {
+					first = i
+				}
+				if !ok && first >= 0 {
+					c.Fail("evicts-oldest-first", trace, fmt.Sprintf("after AddMessage(%s, %d bytes): delivery #%d (%s/%s) is gone although the older delivery #%d is still there", box, size, i+1, e.box, e.id, first+1), "")
+					return false
+				}
+			}
+			if first > 0 && size <= limit {
+				if gone := order[first-1]; total+gone.size <= limit {
+					c.Fail("evicts-only-what-is-necessary", trace, fmt.Sprintf("after AddMessage(%s, %d bytes): the store holds %d of %d bytes, delivery #%d (%d bytes) was evicted although it still fits", box, size, total, limit, first, gone.size), "")
+					return false
+				}
+			}
+			return true
+		}
+		ok := true
+		fill := limit/small + 20 + r.Intn(50)
+		for k := 0; k < fill && ok; k++ {
+			ok = deliver(fmt.Sprintf("box%d", k%7), small)
+		}
+		trace = append(trace, fmt.Sprintf("%d x AddMessage(box0..6, %d bytes)", fill, small))
+		if !ok {
+			continue
+		}
+		big := limit/2 + r.Intn(limit/2-small) // displaces at least half of the small ones
+		trace = append(trace, fmt.Sprintf("AddMessage(large, %d bytes): about %d older messages have to go", big, big/small))
+		if !deliver("large", big) {
+			continue
+		}
+		for k, m := 0, 5+r.Intn(40); k < m && ok; k++ {
+			ok = deliver(fmt.Sprintf("box%d", k%7), small)
+		}
+		c.H("big-among-small")
+		c.Count(fmt.Sprintf("c08-big %d maxkb=%d small=%d big=%d", idx, maxkb, small, big), true)
+	}
+}
+
+func init() {
+	prev := extra["C08"]
+	extra["C08"] = func(c *core.Ctx) {
+		if prev != nil {
+			prev(c)
+		}
+		c08BigAmongSmall(c)
+	}
+}
